@@ -20,7 +20,7 @@ from sa.loader import AnalysisError
 from sa import regexast, sigdata
 from sa import strterm as T
 from rules.C10 import (_const_regex, armor_tree, flags_of, unarmor_call, verdict_for_label, _receiver, _own_params, _returned_entry,   # noqa: F401
-                       _ascii_oracle, _consumes, require_traceable_label)
+                       _ascii_oracle, _consumes, require_traceable_label, _stored_entry, _is_group_ref)
 
 from rules.C10 import noinline  # noqa: E402,F401
 
@@ -419,9 +419,87 @@ def cleartext_reader(rep, prog, M):
                   (e[0] == 'call' and e[1] in ('%s.__ior__' % selfn, '%s.__or__' % selfn) and e[2] == [val])]
         if len(stored) != 1:
             ok = False
+    nothing_dropped(rep, prog, pf)
+    # the reader hands the cleartext group on as matched (no line-ending / blank normalisation on load)
+    A = prog.cls('pgpy.types', 'Armorable')
+    uf = A.methods.get('ascii_unarmor')
+    up = _own_params(uf)[0]
+    restored = set()
+    for s in Interp(prog, Scenario(args={up: Sym(up, types={'str'}, nonnull=True)}, oracle=_ascii_oracle, inline=noinline)).run(uf):
+        if s.raised is None:
+            v = _stored_entry(s, 'cleartext')
+            if v is not None:
+                n = T.parse_term(v)
+                if not (n is not None and _is_group_ref(n, 'cleartext')):
+                    restored.add(v)
+    rep.check(not restored, 'C11.2', 'Armorable.ascii_unarmor', 'cleartext handed on %s' % (sorted(restored)[:1] or 'as matched'),
+              'the signed text is returned exactly as it stands between the header and the signature armor', where=uf.where, found=sorted(restored)[:2])
     rep.check(ok, 'C11.2', 'PGPMessage.parse', 'dash_unescape calls %s' % found[:2],
               'the cleartext group is unescaped exactly once and that result is the message text', where=pf.where,
               expected="self |= self.dash_unescape(unarmored['cleartext'])", found=found[:3])
+
+
+def nothing_dropped(rep, prog, pf):
+    """C11.2 (reader half, continued): the loops of PGPMessage.parse that attach what they read (`self |= ...`) attach it on EVERY
+    iteration - the only packet that may be passed over is one of the wrong type (an isinstance test that failed).  A filter on anything
+    else (a "duplicate" signer / time, a count limit) loses a signature the writer wrote, and with it a digest of the Hash: header.
+    Each loop body is interpreted on its own (one iteration, loop variable symbolic); loops are found by what their body does."""
+    from sa.interp import Frame, State, Obj
+
+    class IterationFrame(Frame):
+        # `Packet(data)` is a dispatching constructor: what it returns may be any packet class, so a type test on its result is open
+        def _isinstance(self, objnode, typenode, st):
+            d = Frame._isinstance(self, objnode, typenode, st)
+            if d is False and isinstance(self.ev(objnode, st), Obj):
+                return None
+            return d
+    selfn = _receiver(pf)
+    loops = [n for n in ast.walk(pf.node) if isinstance(n, (ast.For, ast.While))]
+    seen = 0
+    for lp in loops:
+        if any(isinstance(x, (ast.For, ast.While)) and x is not lp and lp in ast.walk(x) for x in loops):
+            continue                    # inner loops are part of their outer loop's iteration
+        fr = IterationFrame(Interp(prog, Scenario(inline=noinline)), pf, 0)
+        st = State()
+        st.env[selfn] = Sym(selfn, cls=pf.cls, nonnull=True)
+        if isinstance(lp, ast.For):
+            fr._assign_loopvars(lp.target, st, lp, '$1')
+        try:
+            outs = fr.block(lp.body, st)
+        except AnalysisError:
+            raise
+        attaches = [(s, status) for s, status in outs if _attaches(s, selfn)]
+        if not attaches:
+            continue
+        seen += 1
+        bad = []
+        for s, status in outs:
+            if status in ('break', 'return'):
+                bad.append('the loop is left (%s) before the data is used up: %s' % (status, [(t[:80], val) for t, val, sk in s.facts]))
+                continue
+            if status == 'raise' or _attaches(s, selfn):
+                continue
+            if not any(_failed_type_test(t, val, sk) for t, val, sk in s.facts):
+                bad.append([(t[:80], val) for t, val, sk in s.facts])
+        rep.check(not bad, 'C11.2', 'PGPMessage.parse', 'loop at line %d: iterations without attaching: %s' % (lp.lineno - pf.node.lineno, bad[:1] or 'only packets of the wrong type'),
+                  'every packet read is attached to the message; only a packet of the wrong type may be passed over (the reader drops nothing the writer wrote)',
+                  where=pf.where, expected='self |= <packet> on every iteration', found=bad[:2])
+    if not seen:
+        raise AnalysisError('PGPMessage.parse: no loop that attaches packets found')
+
+
+def _attaches(s, selfn):
+    return any((e[0] == 'ior' and e[1] == selfn) or (e[0] == 'call' and e[1] in ('%s.__ior__' % selfn, '%s.__or__' % selfn)) for e in s.events)
+
+
+def _failed_type_test(t, val, sk):
+    """The decision says that an isinstance test did not hold."""
+    if sk is None:
+        return False
+    neg = False
+    while sk[0] == 'not':
+        sk, neg = sk[1], not neg
+    return sk[0] == 'call' and sk[1] == 'isinstance' and (val if neg else not val)
 
 
 def hash_header_reader(rep, prog, A):
